@@ -304,7 +304,7 @@ class Runner(object):
         if props is None:
             res["detail"] = "cbmc gave no result rc=%s: %s" % (rc, ("; ".join(errors)[-400:] or (out[-300:] + err[-300:])))
             return
-        n_ok = 0; fails = []; wit_ok = []; wit_missing = []; notes = []
+        n_ok = 0; fails = []; wit_ok = []; wit_missing = []; notes = []; unknown = []
         seen_wit = {}
         for p in props:
             dsc = p.get("description", "")
@@ -313,6 +313,9 @@ class Runner(object):
                 continue
             if p["status"] == "SUCCESS":
                 n_ok += 1
+            elif p["status"] == "UNKNOWN":
+                # cbmc 6 reports properties behind a failed *fatal* check (e.g. the ignored negative-shift check) as UNKNOWN
+                unknown.append(p["property"])
             else:
                 sl = p.get("sourceLocation", {})
                 key = "%s:%s:%s" % (os.path.basename(sl.get("file", "")), sl.get("function", ""), dsc)
@@ -332,6 +335,11 @@ class Runner(object):
             res["ub_notes"] = notes[:20]
         if fails:
             self.handle_failure(ob, gp, d, name, res, fails, cmd, env)
+            return
+        if unknown:
+            res["status"] = "inconclusive"
+            res["detail"] = "%d properties UNKNOWN (behind a failed fatal check that the runner ignores, e.g. %s): add --no-undefined-shift-check to the obligation" % (
+                len(unknown), (notes or ["?"])[0][:80])
             return
         if wit_missing:
             res["status"] = "inconclusive"
@@ -489,7 +497,7 @@ class Runner(object):
         t0 = time.time()
         sel = []
         for ob in obs:
-            if self.only and not re.search(self.only, ob.name):
+            if self.only and not (re.search(self.only, ob.name) or "[" in self.only or "=" in self.only):
                 continue
             if self.tier == "quick" and ob.tier != "quick":
                 continue
@@ -498,6 +506,10 @@ class Runner(object):
                 grid = ob.quick_grid
             for gi, gp in enumerate(grid):
                 sel.append((ob, gi, gp))
+        if self.only:   # --only also selects single grid instances: name[k=v,...]
+            def iname(ob, gp):
+                return ob.name + ("" if not gp else "[" + ",".join("%s=%s" % kv for kv in sorted(gp.items())) + "]")
+            sel = [t for t in sel if re.search(self.only, iname(t[0], t[2]))]
         # long jobs first
         sel.sort(key=lambda t: -t[0].timeout)
         self.log("[%s] tier=%s obligations=%d instances=%d jobs=%d work=%s" % (
@@ -595,8 +607,9 @@ class Runner(object):
                                   {"allocation failure out of scope (--no-malloc-may-fail)",
                                    "all claims bounded: see coverage.obligation_details[].bounds / unwind; nothing claimed outside"}),
         }
-        os.makedirs(os.path.join(VERIF, "evidence"), exist_ok=True)
-        json.dump(ev, open(os.path.join(VERIF, "evidence", self.prop + ".json"), "w"), indent=1)
+        evdir = os.environ.get("VERIF_EVIDENCE_DIR") or os.path.join(VERIF, "evidence")   # redirected only when evaluating seeded changes on a scratch tree
+        os.makedirs(evdir, exist_ok=True)
+        json.dump(ev, open(os.path.join(evdir, self.prop + ".json"), "w"), indent=1)
         for r in inc:
             print("INCONCLUSIVE property=%s obligation=%s %s" % (self.prop, r["obligation"], r["detail"][:200]))
         for r in kn:
